@@ -678,6 +678,101 @@ func robustFamilies(c *CheckCtx, modes [][]string) []family {
 		}
 		return &robustCase{Exec: srcExec(sb.String(), pickMode(r)...)}
 	}})
+	fams = append(fams, family{name: "cycle-with-receiver", n: c.N(60, 1200), gen: func(r *RNG, i int) *robustCase {
+		// modules that include/extend each other in a cycle of 1-3, a class that
+		// reaches the cycle, superclass cycles; then rows on which a value of such
+		// a class is the receiver (what an editor asks about)
+		k := 1 + r.Intn(3)
+		var sb strings.Builder
+		for j := 0; j < k; j++ {
+			fmt.Fprintf(&sb, "module Cy%d\n  %s Cy%d\n  def cy%d_m\n    %d\n  end\nend\n", j, Pick(r, []string{"include", "include", "extend"}), (j+1)%k, j, j)
+		}
+		fmt.Fprintf(&sb, "class Reach\n  %s Cy0\n  def own_m\n    1\n  end\nend\n", Pick(r, []string{"include", "extend", "include Cy0\n  extend"}))
+		if r.Chance(1, 3) {
+			sb.WriteString("class Sa < Sb\nend\nclass Sb < Sa\nend\n")
+		}
+		sb.WriteString("class Kid < Reach\nend\n")
+		var recvRows []int
+		for q := 0; q < 1+r.Intn(3); q++ {
+			sb.WriteString(Pick(r, []string{"v = Reach.new\nv.own_m\n", "w = Kid.new\nw.cy0_m\n", "Reach.new.zz\n", "Reach.cy0_m\n", "x = Kid.new\nx.\n", "Reach.\n", "y = Reach.new\ny.\n", "Sa.new.\n", "dbtp Kid.new.own_m\n"}))
+			recvRows = append(recvRows, strings.Count(sb.String(), "\n"))
+		}
+		e := srcExec(sb.String(), pickMode(r)...)
+		if len(e.Argv) > 1 && strings.HasPrefix(e.Argv[1], "--") && r.Chance(3, 4) {
+			// an editor query: on the row of one of the receivers
+			e.Argv = append(e.Argv, fmt.Sprintf("--row=%d", Pick(r, recvRows)))
+		}
+		return &robustCase{Exec: e}
+	}})
+	fams = append(fams, family{name: "partial-config", n: c.N(140, 2000), gen: func(r *RNG, i int) *robustCase {
+		// the shipped configuration minus one method (or one whole class file):
+		// the methods ti evaluates with a strategy of its own must not rely on
+		// their declaration being there
+		targets := []struct{ file, class, method, prog string }{
+			{"hash.json", "Hash", "merge", "h = {a: 1}\nx = h.merge({b: 2})\ndbtp x\nh.merge(\n"},
+			{"hash.json", "Hash", "each", "{a: 1}.each do |k, v|\n  dbtp v\nend\n"},
+			{"hash.json", "Hash", "[]", "h = {a: 1}\ndbtp h[:a]\nh[:b] = 2\n"},
+			{"array.json", "Array", "push", "a = [1]\na.push(\"s\")\ndbtp a\n"},
+			{"array.json", "Array", "<<", "a = [1]\na << \"s\"\ndbtp a\n"},
+			{"array.json", "Array", "concat", "a = [1]\na.concat([2.5])\ndbtp a\n"},
+			{"array.json", "Array", "unshift", "a = [1]\na.unshift(:s)\ndbtp a\n"},
+			{"array.json", "Array", "each", "[1, 2].each do |e|\n  dbtp e\nend\n"},
+			{"array.json", "Array", "[]", "a = [1, 2]\ndbtp a[0]\ndbtp a.first\n"},
+			{"array.json", "Array", "map", "dbtp [1].map { |e| e.to_s }\n"},
+			{"integer.json", "Integer", "+", "dbtp 1 + 2\nx = 1\nx += 1\n"},
+			{"integer.json", "Integer", "times", "3.times do |i|\n  dbtp i\nend\n"},
+			{"string.json", "String", "+", "dbtp \"a\" + \"b\"\n"},
+			{"object.json", "", "class", "dbtp 1.class\nx = \"s\"\ndbtp x.class\n"},
+			{"object.json", "", "nil?", "x = nil\nif x.nil?\n  dbtp x\nend\n"},
+			{"object.json", "", "is_a?", "x = 1\nif x.is_a?(Integer)\n  dbtp x\nend\n"},
+			{"kernel.json", "Kernel", "puts", "puts 1\np 2\nraise \"x\"\n"},
+			{"kernel.json", "Kernel", "raise", "def f\n  raise \"x\"\nend\ndbtp f\n"},
+			{"kernel.json", "Kernel", "attr_accessor", "class A\n  attr_accessor :v\n  attr_reader :w\nend\ndbtp A.new.v\n"},
+			{"range.json", "Range", "each", "(1..3).each do |e|\n  dbtp e\nend\n"},
+		}
+		t := targets[i%len(targets)]
+		shipped := ShippedConfig()
+		cfg := &Config{Files: map[string]string{}}
+		dropFile := r.Chance(1, 4)
+		for n, b := range shipped.Files {
+			if n == t.file && dropFile {
+				continue
+			}
+			if n == t.file {
+				var d map[string]any
+				if json.Unmarshal([]byte(b), &d) == nil {
+					for _, key := range []string{"instance_methods", "class_methods"} {
+						if ms, ok := d[key].([]any); ok {
+							var keep []any
+							for _, m := range ms {
+								if mm, ok := m.(map[string]any); ok && mm["name"] == t.method {
+									continue
+								}
+								keep = append(keep, m)
+							}
+							d[key] = keep
+						}
+					}
+					if nb, err := json.Marshal(d); err == nil {
+						b = string(nb)
+					}
+				}
+			}
+			cfg.Files[n] = b
+		}
+		src := t.prog
+		progRows := strings.Count(src, "\n")
+		if r.Bool() {
+			src += Pick(r, items).Source
+		}
+		e := srcExec(src, pickMode(r)...)
+		if len(e.Argv) > 1 && strings.HasPrefix(e.Argv[1], "--") && r.Chance(3, 4) {
+			// an editor query: on one of the rows that use the missing method
+			e.Argv = append(e.Argv, fmt.Sprintf("--row=%d", 1+r.Intn(progRows)))
+		}
+		e.Config = cfg
+		return &robustCase{Exec: e}
+	}})
 	fams = append(fams, generatedFamilies(c, modes)...)
 	return fams
 }
@@ -726,8 +821,14 @@ func clip(s string, n int) string {
 	return s
 }
 
-// addRowArg appends --row=N with N in 0..lines+2 (C04).
+// addRowArg appends --row=N with N in 0..lines+2 (C04), unless the family
+// chose a row itself.
 func addRowArg(r *RNG, e *Exec) {
+	for _, a := range e.Argv {
+		if strings.HasPrefix(a, "--row=") {
+			return
+		}
+	}
 	lines := strings.Count(e.Files[targetFile], "\n") + 1
 	e.Argv = append(e.Argv, fmt.Sprintf("--row=%d", r.Intn(lines+3)))
 }
